@@ -127,12 +127,12 @@ def parse_written(xml_text):
     for p in model.findall("s:listOfParameters/s:parameter", NS):
         v = p.get("value")
         params[p.get("id")] = float({"INF": "inf", "-INF": "-inf"}.get(v, v))
-    sp = [x.get("id") for x in model.findall("s:listOfSpecies/s:species", NS)]
-    gp = [x.get(FBC + "id") for x in model.findall("f:listOfGeneProducts/f:geneProduct", NS)]
+    sp = [x.get("id") or "" for x in model.findall("s:listOfSpecies/s:species", NS)]
+    gp = [x.get(FBC + "id") or "" for x in model.findall("f:listOfGeneProducts/f:geneProduct", NS)]
     rx = []
     for r in model.findall("s:listOfReactions/s:reaction", NS):
         lb, ub = r.get(FBC + "lowerFluxBound"), r.get(FBC + "upperFluxBound")
-        rx.append((r.get("id"), lb, params.get(lb), ub, params.get(ub)))
+        rx.append((r.get("id") or "", lb, params.get(lb), ub, params.get(ub)))
     return sp, gp, rx
 
 
@@ -399,6 +399,10 @@ def etree_model(text):
     return rxns, {k: v for k, v in obj.items() if v != 0}, direction
 
 
+def rel(path):
+    return os.path.basename(path) if path.startswith(TMP or "\0") else os.path.relpath(path, K.REPO)
+
+
 def third_party(tier):
     import cobra.io as cio
     import cobra.io.sbml as S
@@ -408,6 +412,25 @@ def third_party(tier):
         for f in sorted(os.listdir(dd)):
             if ".xml" in f or ".sbml" in f:
                 files.append(os.path.join(dd, f))
+    # a synthetic foreign document: same network as mini_fbc2.xml, but one species of the first reaction
+    # appears on both sides (reactant +0.5, product 0.5), which a reader must net out
+    try:
+        src = open(os.path.join(K.REPO, "tests/data/mini_fbc2.xml"), encoding="utf-8").read()
+        ET.register_namespace("", NS["s"]); ET.register_namespace("fbc", NS["f"])
+        root = ET.fromstring(src)
+        for r in root.find("s:model", NS).findall("s:listOfReactions/s:reaction", NS):
+            lr, lp = r.find("s:listOfReactants", NS), r.find("s:listOfProducts", NS)
+            if lr is not None and lp is not None and len(lr):
+                sr = lr[0]
+                sr.set("stoichiometry", repr(float(sr.get("stoichiometry")) + 0.5))
+                extra = ET.SubElement(lp, "{%s}speciesReference" % NS["s"])
+                extra.set("species", sr.get("species")); extra.set("stoichiometry", "0.5"); extra.set("constant", "true")
+                break
+        synth = os.path.join(TMP, "synthetic_both_sides.xml")
+        ET.ElementTree(root).write(synth, encoding="utf-8", xml_declaration=True)
+        files.append(synth)
+    except Exception as e:  # noqa
+        pass
     results, problems = [], []
     for path in files:
         big = os.path.getsize(path) > 400000
@@ -449,15 +472,17 @@ def third_party(tier):
         mobj = {r.id: float(r.objective_coefficient) for r in m.reactions if r.objective_coefficient != 0}
         if mobj != {S._f_reaction(k): v for k, v in obj.items()} or str(m.objective.direction) != direction:
             bad.append("objective")
-        results.append((os.path.relpath(path, K.REPO), "agree" if not bad else "DIFFER: " + "; ".join(bad[:4])))
+        results.append((rel(path), "agree" if not bad else "DIFFER: " + "; ".join(bad[:4])))
         if bad:
-            problems.append((os.path.relpath(path, K.REPO), bad[:6]))
+            problems.append((rel(path), bad[:6]))
     return results, problems
 
 
 # ------------------------------------------------------------------ main
 def main(argv=None):
     global TMP
+    import logging
+    logging.disable(logging.CRITICAL)      # cobrapy logs every validator message; the check reports through Reporter
     args = K.parse_args(argv)
     rep = K.Reporter(PROP, args.tier, args.seed)
     KNOWN_CAUSES.extend(f["signature"].get("cause") for f in rep.findings)
